@@ -996,6 +996,12 @@ class Interp:
             if getattr(f, "__module__", "") == "spec.p2p" and f.__name__ == "node_iteration":
                 from . import ghosts
                 return ghosts.node_iteration(self, args, kwargs, node)
+            if getattr(f, "__module__", "") == "spec.ec" and f.__name__ == "key_with_draws":
+                import bits.keys
+                return self.call(bits.keys.key, [], {}, node)      # the RNG is the ghost contract (every draw)
+            if getattr(f, "__module__", "") == "spec.ec" and f.__name__ == "sign_with_draws":
+                import bits.ecmath
+                return self.call(bits.ecmath.sign, [args[0], args[1]], {}, node)
             if getattr(f, "__module__", "") == "spec.cli" and f.__name__ == "effective_config":
                 from . import ghosts
                 return ghosts.effective_config(self, args, kwargs, node)
